@@ -64,6 +64,7 @@ type cviol struct {
 	Detail string `json:"detail"`
 	Idx    int    `json:"idx"`
 	Input  string `json:"input,omitempty"` // hex, when short enough
+	Len    int    `json:"len"`
 	Count  int    `json:"count"`
 }
 
@@ -517,7 +518,7 @@ func runShard(sh shard, schema *gen.Schema, careful bool, out *bufio.Writer) *re
 		for _, v := range viols {
 			cv := bySig[v.sig]
 			if cv == nil {
-				cv = &cviol{Sig: v.sig, Detail: fmt.Sprintf("[%s; %s; %s] %s", sh.family(), sh.Entry, label(), v.detail), Idx: idx, Input: hexIfShort(input)}
+				cv = &cviol{Sig: v.sig, Detail: fmt.Sprintf("[%s; %s; %s] %s", sh.family(), sh.Entry, label(), v.detail), Idx: idx, Input: hexIfShort(input), Len: len(input)}
 				bySig[v.sig] = cv
 				rep.Viols = append(rep.Viols, cv)
 			}
